@@ -12,6 +12,7 @@ CONSTANTS
   NWalks = 1
   Seed = 0
   Emit = FALSE
+  DerStarts = {"none"}
 INIT Init
 NEXT Next
 VIEW View
